@@ -44,8 +44,8 @@ MCFieldSet(c) ==
     THEN IF Len(lv.fields) < 1 THEN {DefField} \cup (IF NVariants(c) = 1 THEN { [DefField EXCEPT !.ty = s[1], !.dflt = s[2]] : s \in EnumSources } ELSE {}) ELSE {}
     ELSE { [DefField EXCEPT !.ty = s[1], !.dflt = s[2]] : s \in Src(c) }
 
-MCAdmissible(c) ==
-  /\ DefaultWellDesignated(c)
+MCBoundOK(c) ==
+  /\ c.opts.dexpr => NVariants(c) >= 1      \* the rendered type-level expression builds the last variant
   \* a marker flag next to an expression on the same union field is redundant: keep one form
   /\ c.kind = "union" => \A i \in FieldIdx(c, 1) : ~(c.variants[1].fields[i].deref /\ c.variants[1].fields[i].dflt # "none")
   \* harness limit: a union is observed through its first field, so all its fields are probes
@@ -55,8 +55,20 @@ MCAdmissible(c) ==
   \* a single-variant enum may or may not carry the marker; a non-designated variant carries no field attribute
   \* bounded instance: the non-designated variants of an enum are `V` or `V(P)`
   /\ (c.kind = "enum" /\ NVariants(c) > 1) =>
-        \A v \in 1..NVariants(c) : (c.opts.dexpr \/ v # DefaultVariant(c)) =>
+        \A v \in 1..NVariants(c) : (c.opts.dexpr \/ ~c.variants[v].dflt) =>
            (c.variants[v].style = "unit" \/ (c.variants[v].style = "tuple" /\ NFields(c, v) = 1))
+\* a missing or duplicated default variant / union field; attributes where nothing is built
+MCSemOK(c) == DefaultWellDesignated(c)
+MCAdmissible(c) == MCBoundOK(c) /\ MCSemOK(c)
+\* the refused corpus is kept small: every variant has at most one field and at most one field has a source
+NSources(c) == Cardinality({ <<v, i>> \in (1..NVariants(c)) \X (1..2) : i <= NFields(c, v) /\ c.variants[v].fields[i].dflt # "none" })
+MCNegBound(c) ==
+  /\ MCBoundOK(c)
+  /\ \A v \in 1..NVariants(c) : NFields(c, v) <= 1
+  /\ NSources(c) <= 1
+  /\ ~c.opts.newfn \/ c.kind # "struct"
+  /\ ~HasTrait(c, "Debug")
+DoSealBad == SealBad(MCNegBound, MCSemOK) /\ UNCHANGED run
 
 Init == BuildInit /\ run = NoRun
 
@@ -88,7 +100,7 @@ Return ==
   /\ run' = NoRun
   /\ UNCHANGED <<cfg, phase>>
 
-Next == DoStart \/ DoAddVariant \/ DoAddField \/ DoSeal \/ DoBegin \/ Step \/ Return
+Next == DoStart \/ DoAddVariant \/ DoAddField \/ DoSeal \/ DoSealBad \/ DoBegin \/ Step \/ Return
 Spec == Init /\ [][Next]_vars
 
 Finished == run # NoRun /\ run.done
